@@ -72,6 +72,10 @@ impl Scenario for Hb {
                 v.push(json!({"h": h, "server": [], "client_at": [], "dead_peer": true, "newest_first": newest_first}));
                 v.push(json!({"h": h, "server": [[h * 500, "hb"]], "client_at": [h * 250], "dead_peer": true, "newest_first": newest_first}));
             }
+            // the client asks for h, the server proposes three times as much: the announced (lower)
+            // interval governs both timers
+            v.push(json!({"h": h, "server_h": 3 * h, "server": [], "client_at": []}));
+            v.push(json!({"h": h, "server_h": 3 * h, "server": [[h * 900, "hb"], [h * 1800, "byte"], [h * 2700, "hb"], [h * 3600, "hb"], [h * 4500, "hb"], [h * 5400, "hb"]], "client_at": [h * 2600]}));
             // (whole frames only here: the client makes a request while the server is talking)
             let chatty_frames: Vec<Value> = (1..=13).map(|i| json!([i * h * 900, "hb"])).collect();
             v.push(json!({"h": h, "server": chatty_frames, "client_at": [], "open_delay_ms": h * 1500}));
@@ -83,6 +87,8 @@ impl Scenario for Hb {
         v.push(json!({"h": 0, "server": [], "client_at": [5000], "ctimeout_ms": 2000}));
         v.push(json!({"h": 2, "server": [[1800, "hb"], [3600, "byte"], [5400, "hb"], [7200, "hb"], [9000, "hb"], [10800, "hb"]], "client_at": [], "ctimeout_ms": 1000}));
         v.push(json!({"h": 0, "server": [[1500, "hb"]], "client_at": [2000]}));
+        // ... also when only the client says 0 and the server proposes an interval
+        v.push(json!({"h": 0, "server_h": 1, "server": [], "client_at": [3000]}));
         v
     }
     fn bound(&self, tier: &str, p: &Value) -> usize {
@@ -98,7 +104,7 @@ impl Scenario for Hb {
     fn build(&self, p: &Value) -> Built {
         let h = p["h"].as_u64().unwrap();
         let mut hs = Handshake::default();
-        hs.tune = (2047, 131072, h as u16);
+        hs.tune = (2047, 131072, p["server_h"].as_u64().unwrap_or(h) as u16);
         hs.open_ok_delay_ns = p["open_delay_ms"].as_u64().unwrap_or(0) * MS;
         let mut broker = StdBroker::new(hs);
         let hbf = frame_bytes(&amq_protocol::frame::AMQPFrame::Heartbeat(0));
@@ -134,12 +140,13 @@ impl Scenario for Hb {
         cfg.horizon_ns = (horizon_ms + 10) * MS;
         let client_at: Vec<u64> = p["client_at"].as_array().unwrap().iter().map(|x| x.as_u64().unwrap()).collect();
         let ctimeout = p["ctimeout_ms"].as_u64().map(std::time::Duration::from_millis);
+        let lower_client = p["server_h"].is_u64();
         Built {
             broker: Box::new(broker),
             cfg,
             root: Box::new(move |ctx: Ctx| {
                 amiquip::verif::clock::set_timer_tie_newest_first(newest_first);
-                let mut conn = match open(&ctx, ConnectionOptions::default().heartbeat(if h == 0 { 0 } else { 600 }).connection_timeout(ctimeout), ConnectionTuning::default()) {
+                let mut conn = match open(&ctx, ConnectionOptions::default().heartbeat(if h == 0 { 0 } else if lower_client { h as u16 } else { 600 }).connection_timeout(ctimeout), ConnectionTuning::default()) {
                     Ok(c) => c,
                     Err(e) => {
                         ctx.log(format!("open -> Err({})", err_name(&e)));
